@@ -819,6 +819,21 @@ bytes hash_string(int alg, const bytes &m)
   delete h;
   return out;
 }
+bytes hash_string_inplace(int alg, const bytes &m, size_t out_off)
+{
+  Hashmaster *h = hasher(alg);
+  size_t hl = (size_t)hash_len(alg);
+  size_t cap = std::max(m.size(), out_off + hl);
+  u8_t *buf = new u8_t[cap ? cap : 1];
+  memset(buf, 0xEE, cap);
+  if (!m.empty())
+    memcpy(buf, m.data(), m.size());
+  h->getStringHash(buf, (u32_t)m.size(), buf + out_off); // the result lands inside (or right behind) the message
+  bytes out(buf + out_off, buf + out_off + hl);
+  delete[] buf;
+  delete h;
+  return out;
+}
 bytes hash_string_reuse(int alg, const bytes &decoy, const bytes &m)
 {
   Hashmaster *h = hasher(alg);
@@ -1001,6 +1016,62 @@ std::vector<bytes> hmac_seq(const std::vector<HmacCall> &calls, int refill_units
   }
   return res;
 }
+// a read-only stream of `len` synthetic bytes (byte i = synth_byte(i, pat)): nothing is materialised
+struct SynthFile
+{
+  uint64_t len, pos;
+  uint32_t pat;
+};
+static ssize_t sf_read(void *c, char *buf, size_t n)
+{
+  SynthFile *f = (SynthFile *)c;
+  if (f->pos >= f->len)
+    return 0;
+  size_t m = (size_t)std::min<uint64_t>(n, f->len - f->pos);
+  for (size_t i = 0; i < m; i++)
+    buf[i] = (char)synth_byte(f->pos + i, f->pat);
+  f->pos += m;
+  return (ssize_t)m;
+}
+static int sf_seek(void *c, off64_t *off, int whence)
+{
+  SynthFile *f = (SynthFile *)c;
+  int64_t base = whence == SEEK_SET ? 0 : whence == SEEK_CUR ? (int64_t)f->pos : (int64_t)f->len;
+  int64_t np = base + *off;
+  if (np < 0)
+    return -1;
+  f->pos = (uint64_t)np;
+  *off = np;
+  return 0;
+}
+bytes hmac_synth(int hmode, const bytes &key, uint64_t len, uint32_t pat, uint64_t pos, const bytes *cmp_tag, bool *cmp_result)
+{
+  set_refill(refill_capacity());
+  SynthFile sf{len, 0, pat};
+  cookie_io_functions_t io = {sf_read, NULL, sf_seek, NULL};
+  FILE *fi = fopencookie(&sf, "rb", io);
+  static char big[1 << 16];
+  setvbuf(fi, big, _IOFBF, sizeof big);
+  bytes k = key;
+  k.resize(16);
+  bytes out(64, 0xEE);
+  {
+    hmac h;
+    fseeko(fi, (off_t)pos, SEEK_SET);
+    h.gethmac((u8_t)hmode, k.data(), fi, out.data(), len);
+    out.resize(h.get_length());
+  }
+  if (cmp_tag && cmp_result)
+  {
+    hmac h2;
+    bytes t = *cmp_tag;
+    t.resize(64, 0);
+    fseeko(fi, (off_t)pos, SEEK_SET);
+    *cmp_result = h2.cmphmac((u8_t)hmode, k.data(), fi, t.data(), len);
+  }
+  fclose(fi);
+  return out;
+}
 bytes hmac_write(int hmode, const bytes &key, const bytes &file, size_t hash_mark, size_t write_mark, int refill_units)
 {
   set_refill(refill_units);
@@ -1157,6 +1228,7 @@ void mode_run(void *hh, uint8_t block[16], int off)
   ((ModeH *)hh)->m->runcry(b.p);
   b.out(block);
 }
+void mode_run_raw(void *hh, uint8_t *block) { ((ModeH *)hh)->m->runcry(block); }
 void mode_free(void *hh)
 {
   ModeH *h = (ModeH *)hh;
